@@ -379,7 +379,9 @@ def ackermannize(fs, stats):
     # --- exp / log inverse
     for (ce, (t,)) in E:
         for (cl, (a,)) in L:
-            ax += [z3.Implies(z3.And(a > 0, t == cl), ce == a), z3.Implies(z3.And(a > 0, ce == a), t == cl)]
+            ax += [z3.Implies(z3.And(a > 0, t == cl), ce == a), z3.Implies(z3.And(a > 0, ce == a), t == cl),
+                   # exp is increasing and exp(log a) = a:  exp(t) >= a  <=>  t >= log a
+                   z3.Implies(a > 0, (ce >= a) == (t >= cl)), z3.Implies(a > 0, (ce > a) == (t > cl))]
     # --- pow(x, y), x >= 0
     P = tables["pow"]
     for c, (x, y) in P:
@@ -827,7 +829,14 @@ def discharge_smt2(smt2, timeout_s=20, use_cvc5=True, both=False):
                     if r1 == "unsat":
                         st_s.pop("_select_table", None)
                         st_s.pop("_goal_idx", None)
-                        res.update(verdict="unsat", stage=1, backend="z3", time=time.time() - t0, stats=st_s)
+                        res.update(verdict="unsat", stage=1, backend="z3", stats=st_s)
+                        if both and use_cvc5:
+                            r2, dt2 = run_cvc5(fs_s, min(timeout_s, 30))
+                            res["attempts"].append(("pre-slice%d/cvc5" % depth, r2, round(dt2, 3)))
+                            res["cvc5"] = r2
+                            if r2 == "sat":
+                                res.update(verdict="error", error="back ends disagree: z3 unsat, cvc5 sat on the same stage-1 problem")
+                        res["time"] = time.time() - t0
                         return res
         except Exception:
             pass
@@ -876,9 +885,11 @@ def discharge_smt2(smt2, timeout_s=20, use_cvc5=True, both=False):
     if r == "unsat":
         res.update(verdict="unsat", stage=1, backend="z3")
         if both and use_cvc5:
-            r2, dt2 = run_cvc5(fs, timeout_s)
+            r2, dt2 = run_cvc5(fs, min(timeout_s, 30))
             res["attempts"].append(("stage1/cvc5", r2, round(dt2, 3)))
-            res["cvc5_agrees"] = (r2 == "unsat")
+            res["cvc5"] = r2
+            if r2 == "sat":
+                res.update(verdict="error", error="back ends disagree: z3 unsat, cvc5 sat on the same stage-1 problem")
         res["time"] = time.time() - t0
         return res
     if r == "sat":
